@@ -438,7 +438,7 @@ def run(ck: core.Check):
         "of the packable positions when ≤ 64, sampled otherwise; values over | ; \\ space newline , \" é 日 1 0 true a b - False "
         "plus field-name-shaped strings, defaults taken with probability 0.35 per field; 12 % of the strings get whitespace of any kind "
         "(every code point with str.isspace()) or a zero-width space / BOM at an edge or inside — after trimming, the zero-width "
-        "characters stay at the edge of representable strings; 5 % of the lists (records, lists, basic values, the edges of a flow "
+        "characters stay at the edge of representable strings; 3 % of the lists (records, lists, basic values, the edges of a flow "
         "row) have 10–12 entries, so that spread column names carry two-digit indices (f.10.sub, f.10.1). 75 % of the values lie in the "
         "representable domain (mirror of Props.C07.Representable), the rest exercise the tie only. A case is non-trivial / "
         "distinct when it is in the domain of the statement (oracle evaluated): distinct (schema, layout, value) triples."
